@@ -74,11 +74,13 @@ func Materialise(s *Scenario) (*Sim, error) {
 		if s.Options.MinValues == "BestEffort" {
 			o.MinValuesPolicy = options.MinValuesPolicyBestEffort
 		}
+		o.IgnoreDRARequests = s.DRA == nil
 	}), "provisioner")
 	// catalog
 	var all []*cloudprovider.InstanceType
 	for _, t := range s.Types {
 		it := BuildType(t)
+		applyDRATemplates(s, it)
 		sim.Types[t.Name] = it
 		all = append(all, it)
 	}
@@ -143,11 +145,15 @@ func Materialise(s *Scenario) (*Sim, error) {
 	}
 	for _, p := range s.Pods {
 		pod := BuildPod(p, dsRef)
+		applyDRAPodClaims(s, pod)
 		st := pod.Status
 		w.EnvCreate(pod)
 		cur := &corev1.Pod{ObjectMeta: metav1.ObjectMeta{Name: pod.Name, Namespace: pod.Namespace}}
 		w.EnvMutate(cur, "seed-status", func() { cur.Status = st })
 		sim.podKey[cur.UID] = podKey(cur)
+	}
+	if err := sim.materialiseDRA(); err != nil {
+		return nil, err
 	}
 	// deleting nodes: API delete (finalizers keep them, virtual deletionTimestamp)
 	for _, n := range s.Nodes {
@@ -206,8 +212,11 @@ func Materialise(s *Scenario) (*Sim, error) {
 	if !sim.Cluster.Synced(sim.Ctx) {
 		return nil, fmt.Errorf("cluster state not synced after hydration")
 	}
-	sim.Prov = provisioning.NewProvisioner(w.Client, w.Rec, w.Prov, sim.Cluster, w.Clock, deviceallocation.NewController(w.Client),
-		virtualpods.NewVirtualPodCache(w.Client))
+	dac := deviceallocation.NewController(w.Client)
+	if s.DRA != nil {
+		dac.Hydrate(sim.Ctx) // AllocatedDevices blocks until the controller has listed the ResourceClaims once
+	}
+	sim.Prov = provisioning.NewProvisioner(w.Client, w.Rec, w.Prov, sim.Cluster, w.Clock, dac, virtualpods.NewVirtualPodCache(w.Client))
 	return sim, nil
 }
 
@@ -496,7 +505,8 @@ func (sim *Sim) ResultsEvent(res pscheduling.Results, runErr error, phase string
 	if runErr != nil {
 		errS = trunc(runErr.Error(), 200)
 	}
-	return trace.M{"e": "Results", "phase": phase, "err": errS, "claims": claims, "existing": existing, "errors": errs, "eff": eff}
+	return trace.M{"e": "Results", "phase": phase, "err": errS, "claims": claims, "existing": existing, "errors": errs, "eff": eff,
+		"dra": sim.DRAResults(res)}
 }
 
 // ---------------------------------------------------------------- the run
